@@ -145,6 +145,8 @@ func C02(ctx *core.Ctx) {
 	ctx.Rule("C02.R7", "alias agreement: every switch of the Go generator over the IDL type name handles `byte` and `i8` alike", 6)
 	aliasAgreement(ctx, cc, "C02.R7", map[string]bool{"golang": true}, "an i8 field is generated differently from a byte field (pointer-ness, wire type, reader/writer)")
 	c02KindIndependence(ctx, cc)
+	ctx.Rule("C02.R9", "typedef resolution across includes: the aliased type of a typedef is resolved by the program whose index the alias was found in", 1)
+	typedefResolverAgreement(ctx, cc, "C02.R9")
 
 	var gpkg, ppkg *packages.Package
 	for _, p := range cc.V.Pkgs {
@@ -361,7 +363,10 @@ func C02(ctx *core.Ctx) {
 					}
 					if ic, isC := CallValue(bo.X); isC && ic.ShortName() == "IncludeName" && ssax.Strip(ic.Common.Args[0]) == typ {
 						if s, isS := ConstString(bo.Y); isS && s == "" {
-							test = in
+							// any such test that dominates the lookup will do (there may be later ones)
+							if test == nil || !ssax.Dominates(test, lk) {
+								test = in
+							}
 						}
 					}
 				})
